@@ -23,7 +23,8 @@ from harness.c17.util import report
 from harness.vlib.core import Ctx, REPO, ToolFailure, VERIF
 
 MODEL_FILES = ["MypyVerif/Model/Config.lean", "MypyVerif/Model/ConfigTable.lean", "MypyVerif/Proofs/Config.lean",
-               "MypyVerif/Proofs/ConfigCache.lean", "MypyVerif/Proofs/ConfigChain.lean"]
+               "MypyVerif/Proofs/ConfigCache.lean", "MypyVerif/Proofs/ConfigChain.lean",
+               "MypyVerif/Proofs/ConfigStrings.lean"]
 
 # Defects of the unchanged tree found by this check, proposed for /verif/known_findings.json (the shared file
 # is the lead's; until the entries are there, they are taken from here — same matching rule, same printed line).
@@ -145,6 +146,7 @@ def main(ctx: Ctx) -> None:
         sources.precedence_pairs(ctx, tables)
         sources.parsed_sections(ctx)
         sources.diagnostics_equivalence(ctx, tables)
+        sources.precedence_diagnostics(ctx)
         sources.findings_on_diagnostics(ctx)
     if not proved and not ctx.violations and not found:
         ctx.violation("Lean development for C17 no longer builds against the regenerated option table",
@@ -225,26 +227,34 @@ def replay(ctx: Ctx, path: str) -> int:
         os.makedirs(d, exist_ok=True)
         sources.write_witness(d)
         print("--- command line", det["flag"])
-        print(sources.run_mypy(d, ["--config-file=", det["flag"]]))
+        print(sources.run_mypy(d, ["--config-file=", det["flag"]], ".r1"))
         src = det["source"]
         if src == "inline":
             sources.write_witness(d, f"# mypy: {det['flag'][2:]}")
             print("--- inline comment")
-            print(sources.run_mypy(d, ["--config-file="]))
+            print(sources.run_mypy(d, ["--config-file="], ".r2"))
         else:
             text = sources.toml_text([(det["dest"], det["const"])]) if src.endswith(".toml") else sources.ini_text([(det["dest"], str(det["const"]))])
             open(os.path.join(d, src), "w").write(text)
             print("---", src, "\n" + text)
-            print(sources.run_mypy(d, []))
+            print(sources.run_mypy(d, [], ".r3"))
+    elif kind == "precedence-diagnostics":
+        d = os.path.join(ctx.tmp, "rp")
+        os.makedirs(os.path.join(d, "pk"), exist_ok=True)
+        for rel, txt in (("pk/__init__.py", ""), ("pk/a.py", det["header"] + "\ndef f(x):\n    return x\n"), ("pk/b.py", "y = 1\n")):
+            open(os.path.join(d, rel), "w").write(txt)
+        open(os.path.join(d, "mypy.ini"), "w").write(det["config_text"])
+        print("--- mypy.ini\n" + det["config_text"] + "--- pk/a.py starts with: " + det["header"] + "\n--- command line", det["cli"])
+        print(sources.run_mypy(d, det["cli"], os.devnull))
     elif kind == "finding-diagnostics":
         d = os.path.join(ctx.tmp, "rp")
         for rel, txt in det["files"].items():
             os.makedirs(os.path.dirname(os.path.join(d, rel)), exist_ok=True)
             open(os.path.join(d, rel), "w").write(txt)
         if det.get("cli"):
-            print("--- command line", det["cli"]); print(sources.run_mypy(d, ["--config-file="] + det["cli"]))
+            print("--- command line", det["cli"]); print(sources.run_mypy(d, ["--config-file="] + det["cli"], ".r4"))
         open(os.path.join(d, "mypy.ini"), "w").write(det["config_text"])
-        print("--- mypy.ini\n" + det["config_text"]); print(sources.run_mypy(d, []))
+        print("--- mypy.ini\n" + det["config_text"]); print(sources.run_mypy(d, [], ".r5"))
     else:
         print(json.dumps(rep, indent=1)[:4000])
         print("(no concrete input in this replay: it names the obligation / correspondence that no longer checks)")
